@@ -150,6 +150,7 @@ func checkC12(c *Ctx) {
 		c.canonRule(p, "C12.canon", in)
 	}
 	// moduli
+	checkBLSFieldTables(c, p, "C12.modulus")
 	c.tableVarInts(p, "C12.modulus", f25, "p", hexToLEBytes("7fffffffffffffffffffffffffffffffffffffffffffffffffffffffffffffed", 32))
 	c.tableVarInts(p, "C12.modulus", f448, "p", hexToLEBytes("fffffffffffffffffffffffffffffffffffffffffffffffffffffffeffffffffffffffffffffffffffffffffffffffffffffffffffffffff", 56))
 	c.tableVarInts(p, "C12.modulus", "ecc/fourq", "modulusP", hexToLEBytes("7fffffffffffffffffffffffffffffff", 16))
